@@ -234,6 +234,7 @@ namespace RecInt
     // ret|a = b*c
     template <size_t K, typename T>
     inline __RECINT_IS_ARITH(T, void) lmul(limb& ret, ruint<K>& a, const ruint<K>& b, const T& c) {
+        if (__recint_isneg(c)) { lmul(ret, a, b, __recint_mag(c)); neg(a); ret = ~ret + ((a == 0) ? 1 : 0); return; } // -(ret|a), two's complement
         limb retl;
         bool ret_temp;
         lmul(retl, a.Low, b.Low, c);
@@ -243,12 +244,14 @@ namespace RecInt
     }
     template<typename T>
     inline __RECINT_IS_ARITH(T, void) lmul(limb& ret, ruint<__RECINT_LIMB_SIZE>& a, const ruint<__RECINT_LIMB_SIZE>& b, const T& c) {
+        if (__recint_isneg(c)) { lmul(ret, a, b, __recint_mag(c)); a.Value = limb(0) - a.Value; ret = ~ret + ((a.Value == 0) ? 1 : 0); return; } // -(ret|a), two's complement
         recint_umul_ppmm(ret, a.Value, b.Value, limb(c));
     }
 
     // a = b*c
     template <size_t K, typename T>
     inline __RECINT_IS_ARITH(T, void) lmul(ruint<K+1>& a, const ruint<K>& b, const T& c) {
+        if (__recint_isneg(c)) { lmul(a, b, __recint_mag(c)); a = -a; return; }
         limb ret;
         lmul(ret, a.Low, b, c);
         a.High = ret;
@@ -309,6 +312,7 @@ namespace RecInt
     // a = (b*c).Low
     template <size_t K, typename T>
     inline __RECINT_IS_ARITH(T, ruint<K>&) mul(ruint<K>& a, const ruint<K>& b, const T& c) {
+        if (__recint_isneg(c)) { mul(a, b, __recint_mag(c)); return neg(a); }
         limb ret;
         lmul(ret, a, b, c);
         return a;
@@ -317,6 +321,7 @@ namespace RecInt
     // a = (a*b).Low
     template <size_t K, typename T>
     inline __RECINT_IS_ARITH(T, ruint<K>&) mul(ruint<K>& a, const T& b) {
+        if (__recint_isneg(b)) { mul(a, __recint_mag(b)); return neg(a); }
         limb ret;
         lmul(ret, a, a, b);
         return a;
